@@ -19,24 +19,87 @@ func init() { register("C07", runC07) }
 
 var reHex = regexp.MustCompile(`[0-9a-f]{8,}|\d+`)
 
+// classifyRuntimeError gives the failing-input class of a Tier-A run which did
+// not complete: the kind of final state, the phase in which the run-time gave
+// up, and the innermost cause, normalised so that it does not depend on the
+// names, indices, types and paths of the particular program.  The same class
+// is used in the keys of C07 (C07:runtime:<class>) and C03
+// (C03:not-completed:<class>), so that one known-finding entry per defect can
+// list both keys.
 func classifyRuntimeError(final, msg string) string {
 	f := finalClass(final)
 	switch {
 	case strings.HasPrefix(f, "panic:"):
-		return "panic:" + reHex.ReplaceAllString(strings.TrimPrefix(f, "panic:"), "N")
+		return "panic:" + normRuntimeText(strings.TrimPrefix(f, "panic:"), 80)
 	case f == "process-exit":
 		return "process-exit"
 	case f == "failed":
 		// the last '|' field is the log text
 		parts := strings.Split(msg, "|")
-		t := firstLine(parts[len(parts)-1])
-		t = reHex.ReplaceAllString(t, "N")
-		if len(t) > 80 {
-			t = t[:80]
+		text := parts[len(parts)-1]
+		var lines []string
+		for _, l := range strings.Split(text, "\n") {
+			l = strings.TrimSpace(l)
+			if l == "" || strings.HasPrefix(l, "at ") {
+				continue
+			}
+			lines = append(lines, l)
 		}
-		return "failed:" + t
+		flat := strings.Join(lines, " ")
+		phase := "other"
+		switch {
+		case strings.HasPrefix(flat, "Error resolving input argument bindings"):
+			phase = "args"
+		case strings.HasPrefix(flat, "resolving forks"):
+			phase = "forks"
+		case strings.HasPrefix(flat, "Could not evaluate disabled state"):
+			phase = "disabled"
+		case rePipelineOuts.MatchString(flat):
+			phase = "outs"
+		case strings.HasPrefix(flat, "parameter "):
+			phase = "pipeline-args"
+		}
+		// the innermost cause is at the end: keep the last three ': ' segments
+		segs := strings.Split(normRuntimeText(flat, 0), ": ")
+		if len(segs) > 3 {
+			segs = segs[len(segs)-3:]
+		}
+		cause := strings.Join(segs, ": ")
+		if len(cause) > 110 {
+			cause = cause[len(cause)-110:]
+		}
+		return "failed:" + phase + ":" + cause
 	}
 	return f
+}
+
+var (
+	rePipelineOuts = regexp.MustCompile(`^ID\.\S+ fork \[`)
+	reFqname       = regexp.MustCompile(`ID\.[A-Za-z0-9_.%]+`)
+	reForkId       = regexp.MustCompile(`\[[^\[\]]*:[^\[\]]*\]`)
+	reCallName     = regexp.MustCompile(`\b[A-Z][A-Z]*[0-9]+(_A[0-9]+)?\b`)
+	reBuiltinType  = regexp.MustCompile(`\b(int|float|string|bool|file|path)\b`)
+	reQuoted       = regexp.MustCompile(`"[^"]*"`)
+	reParamName    = regexp.MustCompile(`\b(parameter|field|key|input|fork part|ID for) [A-Za-z_][A-Za-z0-9_]*`)
+	reJSONKind     = regexp.MustCompile(`unmarshal (number|T|array|object)`)
+)
+
+// normRuntimeText removes everything program specific from a run-time message.
+func normRuntimeText(t string, max int) string {
+	t = reFqname.ReplaceAllString(t, "ID")
+	t = reForkId.ReplaceAllString(t, "[]")
+	t = reQuoted.ReplaceAllString(t, "Q")
+	t = reCallName.ReplaceAllString(t, "C")
+	t = reHex.ReplaceAllString(t, "N")
+	t = reBuiltinType.ReplaceAllString(t, "T")
+	t = strings.ReplaceAll(t, "C as C", "C")
+	t = reParamName.ReplaceAllString(t, "$1 P")
+	t = reJSONKind.ReplaceAllString(t, "unmarshal V")
+	t = strings.Join(strings.Fields(t), " ")
+	if max > 0 && len(t) > max {
+		t = t[:max]
+	}
+	return t
 }
 
 func runC07(c *Ctx) {
